@@ -62,6 +62,23 @@ func main() {
 				fmt.Println(p.FuncName(f), p.FuncPos(f))
 			}
 			if os.Getenv("WSCHECK_GENSIGS") != "" {
+				callers := map[string]map[string]bool{}
+				for _, cs := range p.CallSites() {
+					if cs.Callee != nil && p.isLib(cs.Callee) && cs.Callee.Parent() == nil {
+						n := p.rawName(cs.Callee)
+						if callers[n] == nil {
+							callers[n] = map[string]bool{}
+						}
+						root := cs.Fn
+						for root.Parent() != nil {
+							root = root.Parent()
+						}
+						callers[n][p.rawName(root)] = true
+					}
+				}
+				for _, n := range sortedKeys2(callers) {
+					fmt.Printf("CAL\t%q: %#v,\n", n, sortedKeys(callers[n]))
+				}
 				p.mainMembers(func(name, desc string, m ssa.Member) { fmt.Printf("MEM\t%q: %q,\n", name, desc) })
 				p.libTypes(func(key, und string, o *types.TypeName) { fmt.Printf("TYP\t%q: %q,\n", key, und) })
 				for _, f := range p.Funcs {
@@ -293,4 +310,13 @@ func debugFieldLocks(p *Program) {
 			fmt.Printf("%s.%s: %s\n", tn, f.Name(), strings.Join(rows, " | "))
 		}
 	}
+}
+
+func sortedKeys2(m map[string]map[string]bool) []string {
+	var out []string
+	for k := range m {
+		out = append(out, k)
+	}
+	sort.Strings(out)
+	return out
 }
